@@ -444,7 +444,15 @@ def setup_path(case):
         lo, hi = bands[-1]
         req.f_min = max(si.f_min, float(lo))
         req.f_max = min(si.f_max, float(hi), req.f_min + (case['nch'] + 0.5) * si.spacing)
-    sim = {None: None, 'raman': RAMAN_SIM, 'raman_ggn': RAMAN_SIM_GGN}[case['sim']]
+    sim = copy.deepcopy({None: None, 'raman': RAMAN_SIM, 'raman_ggn': RAMAN_SIM_GGN}[case['sim']])
+    if case['sim'] == 'raman_ggn':
+        if len(car) < 3:
+            # ggn_spectrally_separated fits a parabola through the channel frequencies (numpy polyfit): it cannot
+            # run on fewer than three channels -> analytic GN model for such combs
+            sim = copy.deepcopy(RAMAN_SIM)
+        else:
+            # `computed_channels` are 1-based indices into the propagated comb: they must exist
+            sim['nli_params']['computed_channels'] = sorted({1, len(car) // 2 + 1})
     return eq, path, req, sim
 
 
